@@ -101,7 +101,7 @@ func init() {
 	vlib.Register(&vlib.Prop{
 		ID:    "C01",
 		Level: "fault_enumeration",
-		Cases: func(tier string) int { return enumCount(tier) + vlib.TierN(tier, 400, 8000) },
+		Cases: func(tier string) int { return enumCount(tier) + vlib.TierN(tier, 400, 64000) },
 		Rule: "enumerated part: pipelines of 1..2 Router stages connected by GoChannel topics, 1..2 source messages, all 12 GoChannel configs {buffer 0/1/4 x persistent x blocking}, and EVERY placement of up to 1 (quick) / 2 (thorough) faults {handler error, handler panic, publisher error, publisher panic} on call 0..2 of any stage (exhaustive within these bounds: " + fmt.Sprint(len(enumShapes(1))) + " / " + fmt.Sprint(len(enumShapes(2))) + " cases); " +
 			"random part: 1..4 stages, optional fan-out stage (2 outputs), optional stage with two handlers on its topic, optional fan-in (two first stages into one topic), 1..8 messages from 1..2 publisher goroutines, up to 12 faults on random calls, yield injection at the router/gochannel hook points. " +
 			"Oracle at quiescence: every accepted source message has >=1 arrival per expected lineage at the sink subscription; every arrival's lineage is one the pipeline can produce from an accepted source message and its payload is intact; the consumed message of a stage is still unsettled when the Publish of its output returns nil; a source Publish never hangs; the process does not crash. " +
